@@ -87,5 +87,13 @@ TEXT = {
                 "the statement's list and is not judged",
         "technique": "runtime monitoring: reference-spectrum oracle (tie-aware selection, residuals, orthonormality) over generated spectra",
     },
+    "C11": {
+        "level": "Held on the executions observed: generated positive-definite / non-singular structured operator trees; factors "
+                 "densified and checked for zero pattern and for reproducing the reference matrix; the returned operators' type "
+                 "tree compared with the input operator's (factor-wise Kronecker/BlockDiag with the same multiplicities, no Dense "
+                 "for Diagonal/ScalarMul/Identity inputs).",
+        "note": _NOTE + "; 'keeps the structure' is read off the public operator classes, as the statement is about them",
+        "technique": "runtime monitoring: reference reconstruction oracle + structural invariant on the returned operator tree",
+    },
 }
 NOT_APPLICABLE = {}
